@@ -113,6 +113,18 @@ def find_sites(repo: Repo, interp: sym.Interp) -> List[Site]:
         if not mod.name.startswith(TH):
             continue
         units = [(None, f) for f in mod.functions.values()]
+        for cname, cnode in mod.constants.items():
+            # `to_x_flags = _flags_decoder(XFlag)`: a decoder made by a factory of the package is a unit like a function
+            if isinstance(cnode, ast.Call) and not cnode.keywords and cname.isidentifier():
+                dn = repo.dotted(mod, cnode.func) or ""
+                f_ = repo.lookup(dn) if dn.startswith("pykdebugparser.") else None
+                if f_ and f_[0] == "func" and any(isinstance(x, (ast.FunctionDef, ast.Lambda)) for x in ast.walk(f_[2]) if x is not f_[2]):
+                    w = ast.parse(f"def {cname}(word):\n    return {cname}(word)\n").body[0]
+                    for x in ast.walk(w):
+                        if hasattr(x, "lineno"):
+                            x.lineno = x.end_lineno = getattr(cnode, "lineno", 1)
+                    w._generated_decoder = True
+                    units.append((None, w))
         for ci in mod.classes.values():
             units.extend((ci, m) for m in ci.methods.values() if m.name == "__str__")
         for ci, fn in units:
@@ -121,9 +133,24 @@ def find_sites(repo: Repo, interp: sym.Interp) -> List[Site]:
 
             called = {n.id for n in ast.walk(fn) if isinstance(n, ast.Name)} | \
                 {n.attr for n in ast.walk(fn) if isinstance(n, ast.Attribute)}
+            # ... and what the utility helpers it calls call in turn (`decode_flags_or` -> `decode_flags` in a shared module):
+            # helpers outside the decoder modules, or generic themselves, are transparent
+            generic_names = {f_.split(".")[-1] for f_, _ in generic}
+            todo_ = list(called)
+            while todo_:
+                nm_ = todo_.pop()
+                for m2 in repo.modules.values():
+                    f2 = m2.functions.get(nm_)
+                    if f2 is not None and (not m2.name.startswith(TH) or nm_ in generic_names):
+                        more_ = ({n.id for n in ast.walk(f2) if isinstance(n, ast.Name)} |
+                                 {n.attr for n in ast.walk(f2) if isinstance(n, ast.Attribute)}) - called
+                        called |= more_
+                        todo_.extend(more_)
 
             def here(lr):
                 """the loop runs in this function's own frame, or in a generic helper this function calls itself"""
+                if getattr(fn, "_generated_decoder", False):
+                    return True         # everything the generated decoder runs is its own
                 return lr.func.split(".")[-1] == fn.name or ((lr.func, lr.lineno) in generic and lr.func.split(".")[-1] in called)
             # comprehension sites evaluated in this function's own frame (not in an inlined callee)
             for lid, lr in rec.loops.items():
@@ -419,6 +446,33 @@ def check(repo: Repo, run: Run) -> None:
             continue
         n_sites += 1
         by_enum.setdefault(s.enum.qualname + "@" + s.scope, []).append(s)
+    # members appended one by one under their own conditions (a loop over a table of rows that the interpreter unrolled, a
+    # chain of ifs): each append is a selection of that one member
+    for mod in repo.modules.values():
+        if not mod.name.startswith(TH):
+            continue
+        for fname, fnode in mod.functions.items():
+            frec = interp.run(mod, fnode)
+            per_enum: Dict[str, List[Site]] = {}
+            for e in frec.effects:
+                if e.kind == "mut-call" and e.key in ("append", "add") and len(e.args) == 1 and e.args[0].op == "enum" \
+                        and not e.loops and e.func.rsplit(".", 1)[-1] == fname:
+                    f_ = repo.lookup(e.args[0].a[0])
+                    if not f_ or f_[0] != "class":
+                        continue
+                    ci_ = f_[2]
+                    key_ = ci_.qualname + "@" + fname
+                    if key_ in by_enum:
+                        continue
+                    st_ = Site(fname, mod.name, e.lineno, T("tuple", ((e.args[0],),)), T("no-elem", ()),
+                               [(list(e.pc), T("no-elem", ()))])
+                    st_.enum, st_.yielded, st_.how = ci_, [(e.args[0].a[1], ci_.member_dict()[e.args[0].a[1]])], \
+                        "members appended one by one"
+                    per_enum.setdefault(key_, []).append(st_)
+            for key_, sts in per_enum.items():
+                if len(sts) >= 3:                      # a decoder of the family, not a single special case
+                    by_enum[key_] = sts
+                    n_sites += len(sts)
     run.analysed["selection_sites"] = n_sites
     run.floor("R2", "enum selection sites", n_sites, 10)
     # every flag family that had a recognised selection site on the reviewed tree and still exists must still have one: a
